@@ -199,7 +199,7 @@ def run(res):
                 mm = B.shape[1]
                 edof_acc = 8 * mm * mm * 2.3e-16 * float(np.linalg.norm(Pimpl, 2) + SQRT_EPS) / max(float(np.linalg.eigvalsh(Mtot)[0]), 1e-300)
                 traj.append(dict(lam=lam, vals=vals, edof=float(gam.statistics_['edof']), rss=wr, gs=gs, ridge=SQRT_EPS * float(beta @ beta),
-                                 fitted=fitted, beta=beta, B=B, edof_acc=edof_acc))
+                                 fitted=fitted, beta=beta, B=B, edof_acc=edof_acc, Ptot=Pimpl))
                 if rng.random() < (0.06 if res.tier == 'quick' else 0.02):
                     cert_cases.append(c01.case_of(dict(scn, specs=with_lams(specs, vals)), its[0]))
                     cert_meta.append(dict(d0, lam_values=vals))
@@ -257,7 +257,10 @@ def run(res):
                 Hl = float(np.sum(w * (y - B @ beta) ** 2) + beta @ S0 @ beta)
                 gl = float(beta @ P @ beta)
                 res.case(('limit', si, str(vary)))
-                if Hl > H0 * (1 + 1e-6) + 1e-9 * float(np.sum(w * y * y)) or gl > H0 / lam_hi * (1 + 1e-3) + 1e-12 * float(np.sum(y * y)):
+                # binary64: the code's Cholesky of S + P has backward error ~ m eps |S + P|, which acts like an extra ridge of that size on the
+                # null space at lam = 1e8; it can raise H(b_lam) by about that ridge times |b|^2
+                chol_ridge = 8 * m * 2.3e-16 * float(np.linalg.norm(t_hi['Ptot'], 2)) * float(beta @ beta) if 'Ptot' in t_hi else 0.0
+                if Hl > H0 * (1 + 1e-6) + 1e-9 * float(np.sum(w * y * y)) + chol_ridge or gl > H0 / lam_hi * (1 + 1e-3) + 1e-12 * float(np.sum(y * y)):
                     res.violations.append(dict(what='lam -> infinity bounds violated: H(b_lam) <= H(b0), g(b_lam) <= H(b0)/lam for the null-space least-squares fit b0',
                                                finding=None, input=inp, observed=dict(H_lam=Hl, H0=H0, g_lam=gl, bound=H0 / lam_hi), expected='within bounds'))
                 # the proved rate (C13_limit_rate): with P u = A'z - M b0 (M = B'WB + S0), (b_l - b0)' M (b_l - b0) <= u'Pu / (2 l) and
